@@ -29,6 +29,47 @@ CLAIMS = {
         ),
         note=NOTE_COMMON + "Kernel type fact (A4): in inter_plane_plane the auxiliary line meets plane b in a Point.",
     ),
+    "C05": dict(
+        technique="abstract evaluation of __contains__/in_ dispatch on operand type tags + syntactic/CFG conjunction check (static analysis, ast)",
+        ref="DESIGN.md 3 (C05)",
+        text=(
+            "Decides two structural clauses of C05 for all inputs: (1) each of the 18 supported (x, S) pairs resolves -- "
+            "through the isinstance branches, the class_level constants and the forward to x.in_(S) -- to a branch that "
+            "returns a boolean expression, never to a fallback (raise, returned exception object, always-False branch, "
+            "missing in_); (2) every composite branch tests all defining points of x (both end points of a Segment; origin "
+            "plus a direction condition of the right tangent/normal kind for HalfLine and Line; plane equality or a "
+            "universally quantified vertex loop for ConvexPolygon), which by convexity of S is equivalent to containment "
+            "while dropping a conjunct is not. NOT decided: the numerical truth of the Point-in-S predicates, inclusive "
+            "boundaries and the tolerance band."
+        ),
+        note=NOTE_COMMON + "Defining points are read from the inferred field table, not hard-coded.",
+    ),
+    "C10": dict(
+        technique="type-set dispatch evaluation + sign domain + R-CROSS guard dominance on the CFG (static analysis, ast)",
+        ref="DESIGN.md 3 (C10)",
+        text=(
+            "Decides the structural clauses of C10: distance() has a branch for each of the 8 documented ordered pairs, the "
+            "four swapped orders forward to distance(b, a) (one computation for both orders, no unbounded recursion), the "
+            "else raises; every returned value is non-negative (sign domain); the method forms forward (self, other); and "
+            "no normalised cross product of direction vectors is taken without a guard that excludes parallel AND "
+            "anti-parallel operands on every path (R-CROSS), so that parallel lines cannot raise. NOT decided: that the "
+            "value is the Euclidean minimum and that it is zero exactly when the operands intersect."
+        ),
+        note=NOTE_COMMON,
+    ),
+    "C11": dict(
+        technique="type-set dispatch evaluation + interval domain for angle folding + tangent/normal kind table + R-ACOS (static analysis, ast)",
+        ref="DESIGN.md 3 (C11)",
+        text=(
+            "Decides the structural clauses of C11: each of angle/parallel/orthogonal has branches for the five operand "
+            "pairs with the mixed pair computed once and the swapped order forwarding to it; every angle result lies in "
+            "[0, pi/2] by an interval domain (acute() folds exactly at pi/2); the vector predicate is swapped and the angle "
+            "complemented iff the two direction kinds (tangent/normal) differ; every acos argument is clamped to [-1, 1] so "
+            "that parallel, anti-parallel and perpendicular operands cannot raise; the method forms forward (self, other). "
+            "NOT decided: that parallel/orthogonal are True exactly at angle 0 / pi/2 (tolerance numerics)."
+        ),
+        note=NOTE_COMMON,
+    ),
     "C15": dict(
         technique="CFG must-pass-through of rejection guards + def-use + type-set abstract evaluation on unsupported operand types (static analysis, ast)",
         ref="DESIGN.md 3 (C15)",
